@@ -1254,6 +1254,9 @@ def pristine_eval_many(req):
             try:
                 if op['op'] == 'defclass':
                     tg.define_class(op['spec'], w)
+                elif op['op'] == 'keep':
+                    fp_, _ = ex.side(lambda: ex.insts.__setitem__(op['as'], ex.pane.from_data(tg.dec(op['data']), w.refs[op['root']])),
+                                     fresh=True)
                 else:
                     w.refs[op['name']] = tg.build(op['t'], w)
             except HarnessError:
@@ -1272,12 +1275,17 @@ def pristine_eval_many(req):
                             fps.append(None)
                             continue
                         cs = {'kind': 'lookup', 'root': op['root'], 'custom': op['custom']}
+                    elif op['op'] == 'serialise':
+                        if op['root'] not in w.refs or op['inst'] not in ex.insts:
+                            fps.append(None)
+                            continue
+                        cs = {'kind': 'serialise', 'inst': op['inst'], 'root': op['root'], 'mode': op['mode'], 'custom': op['custom']}
                     else:
                         if op['root'] not in w.refs:
                             fps.append(None)
                             continue
                         cs = {'kind': 'convert', 'root': op['root'], 'data': op['data'], 'custom': op['custom']}
-                    fn = ex.mk_from_cs(cs)(w, {})
+                    fn = ex.mk_from_cs(cs)(w, ex.insts)
                 except HarnessError:
                     raise
                 except Exception:
@@ -1387,11 +1395,21 @@ def gen_plan_threads(seed: int) -> dict:
         roots[f'r{j}'] = ast
         plan['setup'].append({'op': 'build', 'name': f'r{j}', 't': ast})
     hs = [None, None, ['one', 'dbl_int'], ['seq', 'upper_str', 'dbl_int']]
+    insts = {}
+    for j, rn in enumerate(sorted(roots)):
+        if ro.random() < 0.5:
+            insts[f'i{j}'] = rn
+            plan['setup'].append({'op': 'keep', 'as': f'i{j}', 'root': rn,
+                                  'data': tg.enc(tg.sample_value(roots[rn], sym, ro, valid_p=1.0))})
     for _ in range(knobs['nthreads']):
         ops = []
         for _ in range(ro.choice([1, 2, 3, 4, 5])):
             r = ro.random()
-            if r < 0.55:
+            if insts and r < 0.2:
+                i_ = ro.choice(sorted(insts))
+                ops.append({'op': 'serialise', 'inst': i_, 'root': insts[i_], 'mode': ro.choice(['typed', 'infer', 'roundtrip']),
+                            'custom': ro.choice(hs)})
+            elif r < 0.55:
                 rn = ro.choice(sorted(roots))
                 ops.append({'op': 'convert', 'root': rn, 'custom': ro.choice(hs),
                             'data': tg.enc(tg.sample_value(roots[rn], sym, ro, valid_p=knobs['valid_p']))})
@@ -1498,10 +1516,19 @@ def execute_threads(plan, want_trace=False) -> dict:
         else:
             pane = s.pane
             conv_mod = s.convert_mod
+            t_insts = {}
             for op in plan['setup']:
                 try:
                     if op['op'] == 'defclass':
                         tg.define_class(op['spec'], world)
+                    elif op['op'] == 'keep':
+                        # made with memoisation bypassed: the instance, not the memo, is what the threads share
+                        saved_mc = s.current_mc
+                        s.bind_mc(s.undecorated)
+                        try:
+                            t_insts[op['as']] = pane.from_data(tg.dec(op['data']), world.refs[op['root']])
+                        finally:
+                            s.bind_mc(saved_mc)
                     else:
                         world.refs[op['name']] = tg.build(op['t'], world)
                 except HarnessError:
@@ -1528,6 +1555,13 @@ def execute_threads(plan, want_trace=False) -> dict:
                         conv = conv_mod.make_converter(T, conv_mod.ConverterHandlers.make(H))
                         return [type(conv).__name__, conv.expected(), conv.expected(True)]
                     return call
+                if op['op'] == 'serialise':
+                    x = t_insts[op['inst']]
+                    if op['mode'] == 'infer':
+                        return lambda: pane.into_data(x, custom=H)
+                    if op['mode'] == 'typed':
+                        return lambda: pane.into_data(x, T, custom=H)
+                    return lambda: pane.convert(x, T, custom=H)
                 data = tg.dec(op['data'])
                 return lambda: pane.from_data(data, T, custom=H)
 
@@ -1560,7 +1594,7 @@ def execute_threads(plan, want_trace=False) -> dict:
                 def run():
                     for op in ops:
                         T = get_T(op)
-                        if T is None:
+                        if T is None or (op['op'] == 'serialise' and op['inst'] not in t_insts):
                             out.append(None)
                             continue
                         out.append(fp_of(make_call(op, T)))
@@ -1599,6 +1633,8 @@ def execute_threads(plan, want_trace=False) -> dict:
                     violation = {'kind': 'no_progress', 'detail': f"thread {ti} finished {len(got)} of {len(exp)} calls"}
                     break
                 for ci, (g, e) in enumerate(zip(got, exp)):
+                    if g is None or e is None:
+                        continue          # the operation could not be set up on one side (failed definition): not judged
                     if g != e:
                         violation = {'kind': 'schedule_dependent',
                                      'detail': f"thread {ti} call {ci}: under this interleaving {Exec._short(g)} but freshly built {Exec._short(e)}"}
